@@ -11,7 +11,7 @@ def main():
             if only and q not in only: continue
             t=time.time()
             try:
-                obs = ex.verify(c)
+                obs = symexec.verify_contract(ex, c)
             except symexec.OutOfSubset as e:
                 print('OUT-OF-SUBSET', c.fid, e); continue
             print(c.fid, len(obs), 'obligations', 'paths', ex.paths, f'{time.time()-t:.2f}s')
